@@ -228,7 +228,8 @@ def corpus_cases():
 
 
 def run(ctx):
-    check_cases(ctx, corpus_cases())
+    if not os.environ.get('C11_NO_CORPUS'):      # self-test switch: judge the generators alone
+        check_cases(ctx, corpus_cases())
     procs = 1 if ctx.quick() else 16
     rng = ctx.rng
     cases = []
